@@ -285,7 +285,11 @@ func (x *g) genAlias() *spec.UserType {
 }
 
 func (x *g) genObjectType(kind string) *spec.UserType {
-	ut := &spec.UserType{Name: x.typeName(typeWords[x.r.Intn(len(typeWords))]), Kind: kind}
+	return x.genObjectTypeNamed(kind, typeWords[x.r.Intn(len(typeWords))])
+}
+
+func (x *g) genObjectTypeNamed(kind, base string) *spec.UserType {
+	ut := &spec.UserType{Name: x.typeName(base), Kind: kind}
 	// register before generating attrs so that recursion is possible
 	x.s.Types = append(x.s.Types, ut)
 	ut.Def = x.genObject(1, ut.Name)
